@@ -16,6 +16,8 @@ func main() {
 		os.Exit(2)
 	}
 	switch os.Args[1] {
+	case "locals":
+		cmdLocals(os.Args[2:])
 	case "func":
 		cmdFunc(os.Args[2:])
 	case "prop":
